@@ -1087,6 +1087,17 @@ run_cmd2(char **w, int nw, struct sbuf *o)
             sb_str(o, "-");
             return;
         }
+        if (n->schema && !(n->schema->nodetype & (LYS_LIST | LYS_LEAFLIST))) {
+            /* the insert functions do not look for an existing instance: a second instance of a leaf / container /
+             * anydata is not a tree the properties speak about (and validation only examines nodes flagged new), so such
+             * a move is refused here */
+            struct lyd_node *sib = (w[1][0] == 'c') ? lyd_child(anchor) : lyd_first_sibling(anchor), *dup = NULL;
+
+            if (sib && !lyd_find_sibling_val(sib, n->schema, NULL, 0, &dup) && dup && (dup != n)) {
+                sb_str(o, "dupskip");
+                return;
+            }
+        }
         if (n->next || (n->prev != n)) {
             /* only single trees are moved */
             T[s] = n->next;
